@@ -164,6 +164,22 @@ let handle toks =
       (match from_body c (bytes_of_hex d) with
        | Accept a -> "A " ^ show_assign a | Partial a -> "P " ^ show_assign a | Reject -> "R")
   | ["schemaok"; idx] -> let c = nth_cmd (int_of_string idx) in if schema_ok c.c_params then "1" else "0"
+  | "txs" :: evs ->
+      let nat s = nat_of_int (int_of_string s) in
+      let ev_of t = match String.split_on_char ':' t with
+        | ["S"; tag] -> TSendE (nat tag) | ["A"; n] -> TAckE (ni n) | ["T"; dt] -> TTickE (ni dt)
+        | ["C"; tag] -> TCancelE (nat tag) | ["D"] -> TDataE | ["X"] -> TCloseE
+        | _ -> failwith ("bad event " ^ t) in
+      let show_o = function
+        | TW (t, q) -> Printf.sprintf "U:%d:%d" (int_of_nat t) (int_of_n q)
+        | TEnd (t, w) -> Printf.sprintf "F:%d:%s" (int_of_nat t) (match int_of_nat w with 2 | 4 -> "CANCELLED" | _ -> "OK")
+        | TCall _ -> ""
+        | TK q -> "K:" ^ si q in
+      let st = ref tinit in
+      let parts = List.map (fun t ->
+        let (s', os) = tstep_obs !st (ev_of t) in st := s';
+        String.concat " " (List.filter (fun x -> x <> "") (List.map show_o os))) evs in
+      String.concat " / " parts ^ " // seq=" ^ si (!st).t_seq
   | "api" :: evs ->
       let nat s = nat_of_int (int_of_string s) in
       let ev_of t = match String.split_on_char ':' t with
